@@ -78,6 +78,9 @@ def general_case(s):
         return out
     a, b = rows([ru]), rows(parts)
     H = s["H"]
+    # the open pump-reverse finding (C02) gives such steps two solutions; which one Newton finds depends on its starting point
+    pumps = [l["name"] for l in s["links"] if l["type"] in ("headpump", "powerpump")]
+    s["pump_reverse"] = any(float(common.unnum(r["num"]["q_" + p])) < -2.83168e-6 and r["st"][p] != 0 for r in a + b for p in pumps)
     return {"clause": "C10.concat_equal", "clause2": "C10.no_revisit", "clause3": "C10.resume_at_next_step",
             "a": a, "b": b, "atol": common.num(2e-4), "rtol": common.num(1e-4), "qsmall": common.num(1e-4),
             "numkeys": sorted(a[0]["num"]) if a else [], "stkeys": sorted(a[0]["st"]) if a else [],
@@ -192,8 +195,9 @@ def main(tier, replay):
         for gi, payload in verdicts:
             s = good[gi]["scn"]
             for cl in common.parse_set(payload):
-                ck.violation(cl, "%s%s pauses=%s pickle=%s" % (s.get("tag", "") + " " if s.get("tag") else "",
-                                                               " ".join(sorted(netgen.features_of(s))), s["pauses"], s["pickle"]),
+                ck.violation(cl, "%s%s pauses=%s pickle=%s%s" % (s.get("tag", "") + " " if s.get("tag") else "",
+                                                                 " ".join(sorted(netgen.features_of(s))), s["pauses"], s["pickle"],
+                                                                 " [WNTR reports reverse flow through an open pump]" if s.get("pump_reverse") else ""),
                              {"scn": s})
         for c in good:
             ck.nontrivial(" ".join(sorted(netgen.features_of(c["scn"]))) + str(c["scn"]["pauses"]))
